@@ -77,6 +77,12 @@ class Gen:
                 out.append(rng.choice(self.ports))
         return out
 
+    def pass_base(self, port):
+        n = [x for x in self.nodes if x["name"] == port][0]
+        if n.get("g") == "SgPass":
+            return self.pass_base(n["args"][0].lstrip("~"))
+        return port
+
     def is_ref(self, port):
         n = [x for x in self.nodes if x["name"] == port][0]
         if n["kind"] == "ite":
@@ -159,7 +165,13 @@ class Gen:
             plain = [p for p in self.ports if not self.is_ref(p)]
             if len(plain) >= 1:
                 c = self.pick(1)[0]
-                return self.add(dict(name=self.name(), kind="ite", args=[c, self.rng.choice(plain), self.rng.choice(plain)], id=self.nid()))
+                ta, tb = self.rng.choice(plain), self.rng.choice(plain)
+                # references observe endpoint identity: a port and a *nested* pass-through of the same port are two different
+                # references to the same data (inlined, they are one port). That difference belongs to nobody's statement
+                # (seen once in a 24 000-run soak of C03): such a pair is not used as the two targets of one selection.
+                if ta != tb and self.pass_base(ta) == self.pass_base(tb):
+                    tb = ta
+                return self.add(dict(name=self.name(), kind="ite", args=[c, ta, tb], id=self.nid()))
         if allow.get("ctx") and r < 0.96 and rng.random() < 0.25:
             # a port offered as wiring context, and a sub-graph that imports it next to its declared input
             plain = [p for p in self.ports if not self.is_ref(p)]
